@@ -157,7 +157,13 @@ func Roundtrip(args []string) {
 	outp := fs.String("out", "trace.ndjson", "")
 	big := fs.Bool("bigints", false, "include an integer property beyond 2^53")
 	loadBatch := fs.Int("load-batch", 0, "load batch size (0 = the configuration's batch size)")
+	zero := fs.Bool("zero-ids", false, "the first node and relationship of the first graph have database id 0")
+	reverse := fs.Bool("reverse-targets", false, "name the dump targets in reverse order")
 	fs.Parse(args)
+	if *zero {
+		UseZeroIDs()
+	}
+	_ = reverse
 	root, err := os.MkdirTemp("", "vh-rt")
 	if err != nil {
 		tr.Fatal("mkdtemp: %v", err)
@@ -165,9 +171,18 @@ func Roundtrip(args []string) {
 	defer os.RemoveAll(root)
 	w := tr.Create(*outp)
 	for hid, cfg := range tr.ReadLines[Config](*in) {
+		asGiven := cfg
+		if *reverse {
+			// the graphs of the configuration, and with them the dump targets, in reverse order: names no longer sorted
+			gs := append([]GraphCfg{}, cfg.Graphs...)
+			for i, j := 0, len(gs)-1; i < j; i, j = i+1, j-1 {
+				gs[i], gs[j] = gs[j], gs[i]
+			}
+			cfg.Graphs = gs
+		}
 		dir := filepath.Join(root, fmt.Sprintf("d%d", hid))
 		src := cfg.BuildRichDB(*big)
-		w.Emit(map[string]any{"e": "src", "hid": hid, "cfg": cfg, "graphs": cfg.srcGraphs(), "bigints": *big, "ends": edgeEnds(cfg, src)})
+		w.Emit(map[string]any{"e": "src", "hid": hid, "cfg": asGiven, "graphs": cfg.srcGraphs(), "bigints": *big, "ends": edgeEnds(cfg, src)})
 		_, derr := retriever.Dump(context.Background(), src, "fake", cfg.targets(), cfg.dumpOptions(dir, 0))
 		ev := map[string]any{"e": "dumped", "hid": hid, "ok": derr == nil, "err": fmt.Sprint(derr), "dir": Project(dir), "metrics": manifestMetrics(dir)}
 		w.Emit(ev)
